@@ -99,7 +99,7 @@ const (
 func (f *fsm) cleanup() {
 	if f.cancelDialFn != nil {
 		f.cancelDialFn()
-		<-f.dialResultCh
+		f.discardDialResult()
 	}
 	f.cleanupConnAndReader()
 	for _, t := range []*time.Timer{f.connectRetryTimer, f.holdTimer,
@@ -107,6 +107,14 @@ func (f *fsm) cleanup() {
 		if t != nil {
 			t.Stop()
 		}
+	}
+}
+
+// discardDialResult waits for the dialer goroutine and closes a connection it
+// may have established concurrently with the cancellation.
+func (f *fsm) discardDialResult() {
+	if dr := <-f.dialResultCh; dr != nil && dr.conn != nil {
+		dr.conn.Close()
 	}
 }
 
@@ -319,7 +327,7 @@ func (f *fsm) connect() fsmState {
 		select {
 		case <-f.closeCh:
 			f.cancelDialFn()
-			<-f.dialResultCh
+			f.discardDialResult()
 			f.connectRetryTimer.Stop()
 			return disabledState
 		case dr := <-f.dialResultCh:
